@@ -50,6 +50,11 @@ BRANDING = {"*": {("setup", "software version")},
             "join": {("experiment", "run index"), ("experiment", "date"), ("experiment", "time"),
                      ("experiment", "run identifier")}}
 RUN_ID = ("experiment", "run identifier")
+#: tool -> keys whose value the tool parses before it writes anything, with well-formed values
+PARSED_BY = {"join": {("experiment", "date"): ["2020-10-23", "1999-12-31", "2024-02-29",
+                                               "2017-01-01", "2031-07-04"],
+                      ("experiment", "time"): ["10:44:11", "00:00:00", "23:59:59", "12:00:00.5",
+                                               "07:08:09.25", "18:30:00.125"]}}
 TOOLS = ["compress", "repack", "condense", "split", "join"]
 
 
@@ -69,13 +74,26 @@ def gen_case(rng, skeys, tool=None):
     entries = [[s, k, base.enc_safe(base.good_value(rng, dfn, s, k))]
                for s, k in dict.fromkeys(chosen)]
     entries = [e for e in entries if not e[2].startswith("?")]
+    # keys a tool must PARSE in order to run get well-formed values on that tool's route (join
+    # orders its inputs by acquisition time and refuses a date/time it cannot parse: input
+    # validation, not a statement about carrying metadata over); every other route carries
+    # arbitrary text
+    for e in entries:
+        if (e[0], e[1]) in PARSED_BY.get(tool, {}):
+            e[2] = "s:" + base.enc_str(rng.choice(PARSED_BY[tool][(e[0], e[1])]))
     if rng.random() < 0.7:
         entries.append(["fluorescence", "channel count", f"i:{rng.randint(1, 3)}"])
     if rng.random() < 0.5:
         entries.append(["fluorescence", "channels installed", f"i:{rng.randint(1, 3)}"])
     if rng.random() < 0.5:
-        entries.append(["user", rng.choice(["operator", "n cells", "Dilution"]),
-                        rng.choice(["s:112.101.116.101.114", "i:3", "f:5/2", "b:1"])])
+        uk = rng.choice(["operator", "n cells", "Dilution"])
+        # plain values and values from the edge of the value range (non-finite floats, signed
+        # zero, subnormals, 64-bit integers, blank texts, sequences holding them)
+        ut = rng.choice(["s:112.101.116.101.114", "i:3", "f:5/2", "b:1",
+                         base.enc_safe(base.good_value(rng, dfn, "user", uk, edge=1.0)),
+                         base.enc_safe(base.good_value(rng, dfn, "user", uk, edge=1.0))])
+        if not ut.startswith("?"):
+            entries.append(["user", uk, ut])
     # data-describing attributes changed behind the writer's back: the source file then holds
     # values that contradict its data, or lacks them
     desync = []
@@ -158,6 +176,54 @@ def make_source(path, case, extra=None):
     return path
 
 
+def originals(path):
+    """the normalised ORIGINALS of a file: every raw HDF5 attribute `section:key` (h5py, the
+    trusted layer) of a metadata section, assigned in memory.  Independent of the reader under
+    test (`parse_config`), so a reader that drops or alters values cannot hide them from the
+    reference.  Attributes the configuration refuses (unknown keys, '' / None) are no originals."""
+    import h5py
+    secs = meta_sections()
+    out = {}
+    with h5py.File(path, "r") as h5:
+        raw = dict(h5.attrs)
+    for name, v in raw.items():
+        if ":" not in name:
+            continue
+        sec, key = name.split(":", 1)
+        if sec not in secs:
+            continue
+        if isinstance(v, bytes):
+            v = v.decode("utf-8")
+        a, _ws, w = base.set_primary(sec, key, v)
+        if a.startswith("stored"):
+            out[(sec, key.lower())] = w
+    return out
+
+
+def judge_source(ref, orig):
+    """the re-opened source against its normalised originals (written -> read back)"""
+    fails = []
+    for sk in sorted(set(ref) | set(orig)):
+        want = orig.get(sk, MISSING)
+        have = ref.get(sk, MISSING)
+        if not same(have, want, *sk):
+            fails.append(f"re-opened source: [{sk[0]}]:{sk[1]} raw attribute normalises to "
+                         f"{want!r}, dataset reports {have!r}")
+    return fails
+
+
+def parseable_input(tool, ref):
+    """the values `tool` has to parse (join: acquisition date and time) are well-formed"""
+    import re
+    if tool != "join":
+        return True
+    d = ref.get(("experiment", "date"), MISSING)
+    t = ref.get(("experiment", "time"), MISSING)
+    return bool(isinstance(d, str) and isinstance(t, str)
+                and re.fullmatch(r"\d{4}-\d{2}-\d{2}", d)
+                and re.fullmatch(r"\d{2}:\d{2}:\d{2}(\.\d+)?", t))
+
+
 def same(have, want, sec, key):
     if isinstance(have, str) and have == MISSING or isinstance(want, str) and want == MISSING:
         return isinstance(have, str) and isinstance(want, str) and have == want
@@ -226,12 +292,18 @@ def run_case(ctx, case, idx):
         warnings.simplefilter("ignore")
         try:
             make_source(src, case)
-            ref = read_flat(src)
+            reported = read_flat(src)
+            ref = originals(src)
         except Exception:  # noqa
             # the SOURCE could not be built: not a statement about carrying metadata over
             # (writing/re-opening is judged by the storage part); counted, never a verdict
             ctx.stat("carrydata_source_unusable")
             return [], views
+        # written -> read back: the source dataset must report its normalised originals; the
+        # outputs are then judged against the ORIGINALS, not against what the source reports
+        src_fails = judge_source(reported, ref)
+        if src_fails:
+            return src_fails, views
         outs = []
         try:
             if tool == "export":
@@ -261,6 +333,10 @@ def run_case(ctx, case, idx):
                 cli.join(paths_in=[src, src2], path_out=wd / "out.rtdc")
                 outs = [wd / "out.rtdc"]
         except Exception as e:  # noqa
+            if not parseable_input(tool, ref):
+                # the tool refused, before writing, an input it must parse: input validation
+                ctx.stat("carrydata_tool_refused_input")
+                return [], views
             return [f"{tool} raised {e!r}"[:200]], views
         fails = []
         for p in outs:
